@@ -85,8 +85,33 @@ HasBigNum(d) == IF d.t = "num" THEN MayOverflow(NormNum(d.n))
                 ELSE IF d.t = "arr" \/ d.t = "obj" THEN \E k \in 1..Len(d.a) : HasBigNum(d.a[k])
                 ELSE FALSE
 
-\* Objects with repeated names: the property says "object members in document order" - every member is kept,
-\* in order (Denote does), and the value is compared exactly.
+\* Objects with repeated names.  Denote keeps every member, in document order, and that is what is compared first
+\* (it is what the code does).  RFC 8259 section 4 however leaves the receiver's behaviour open ("many implementations
+\* report the last name/value pair only ... some report all"), and the property does not choose: a value that is
+\* the denotation under one of the one-pair-per-name policies is reported as DRIFT (prefix "DRIFT: "), not as a
+\* violation.  Rejecting such a text is not among the freedoms ("accepts iff JSON text").
+RECURSIVE KeepIdx(_, _, _)
+\* indices of the members kept, in order: pol = "first" (first pair of each name) / "last" (last pair of each name)
+KeepIdx(ks, pol, i) ==
+  IF i > Len(ks) THEN <<>>
+  ELSE LET keep == IF pol = "last" THEN \A j \in (i + 1)..Len(ks) : ks[j] # ks[i] ELSE \A j \in 1..(i - 1) : ks[j] # ks[i]
+       IN  (IF keep THEN <<i>> ELSE <<>>) \o KeepIdx(ks, pol, i + 1)
+LastOf(ks, key) == CHOOSE j \in 1..Len(ks) : ks[j] = key /\ \A m \in (j + 1)..Len(ks) : ks[m] # key
+RECURSIVE Policy(_, _)
+\* pol: "first", "last" (surviving pair stays where the last one was), "lastAtFirst" (value of the last pair at the
+\* position of the first, as insertion-ordered maps do)
+Policy(d, pol) ==
+  IF d.t = "arr" THEN VArr([k \in 1..Len(d.a) |-> Policy(d.a[k], pol)])
+  ELSE IF d.t = "obj" THEN
+    LET idx == KeepIdx(d.k, IF pol = "last" THEN "last" ELSE "first", 1)
+        src(i) == IF pol = "lastAtFirst" THEN LastOf(d.k, d.k[i]) ELSE i
+    IN  VObj([k \in 1..Len(idx) |-> d.k[idx[k]]], [k \in 1..Len(idx) |-> Policy(d.a[src(idx[k])], pol)])
+  ELSE d
+OnePairPerName(d, l) == \E pol \in {"first", "last", "lastAtFirst"} : Same(Policy(d, pol), l)
+RECURSIVE HasDupKeys(_)
+HasDupKeys(d) == IF d.t = "obj" THEN (\E i, j \in 1..Len(d.k) : i < j /\ d.k[i] = d.k[j]) \/ (\E k \in 1..Len(d.a) : HasDupKeys(d.a[k]))
+                 ELSE IF d.t = "arr" THEN \E k \in 1..Len(d.a) : HasDupKeys(d.a[k])
+                 ELSE FALSE
 
 AcceptOk(p, got, d, either) == IF either THEN got => (p.ok /\ p.d <= d)
                                ELSE got <=> (p.ok /\ p.d <= d)
@@ -102,16 +127,22 @@ WhyDoc1(r) ==
   LET p == Parse(r.in)
       either == p.ok /\ (p.lone \/ HasBigNum(p.v))
       anyok == r.ok \/ \E k \in 1..Len(r.pm) : r.pm[k].ok
-  IN  IF ~AcceptOk(p, r.ok, r.L, either) THEN "parse: accept/reject"
-      ELSE IF \E k \in 1..Len(r.pm) : ~AcceptOk(p, r.pm[k].ok, r.pm[k].d, either) THEN "parse_max_depth: accept/reject"
-      ELSE IF ~r.same THEN "parse and parse_max_depth returned different values"
-      ELSE IF anyok /\ ~p.lone /\ ~Same(p.v, r.v) THEN "value differs from the denotation"
+      valbad == anyok /\ ~p.lone /\ ~Same(p.v, r.v)
+  IN  \* demanded by the property (Value::parse: accept iff JSON within the limit; the value denoted)
+      IF ~AcceptOk(p, r.ok, r.L, either) THEN "parse: accept/reject"
+      ELSE IF r.ok /\ valbad /\ ~(HasDupKeys(p.v) /\ OnePairPerName(p.v, r.v)) THEN "value differs from the denotation"
       ELSE IF r.nx = "bad" THEN "number differs from f64::from_str of the literal"
+      \* not named by the property: reported as drift, never a violation
+      ELSE IF r.ok /\ valbad THEN "DRIFT: repeated names: the value keeps one pair per name (RFC 8259 section 4 allows it; the code used to keep all)"
+      ELSE IF \E k \in 1..Len(r.pm) : ~AcceptOk(p, r.pm[k].ok, r.pm[k].d, either)
+           THEN "DRIFT: parse_max_depth(s, d) does not accept exactly IsJson(s) /\\ Depth(s) <= d (the property names Value::parse only)"
+      ELSE IF ~r.same \/ valbad THEN "DRIFT: parse_max_depth returned a different value than parse / than the denotation"
       ELSE ""
 WhySer(r) ==
   LET p == Parse(r.out) IN
   IF ~p.ok THEN "serialiser output is not JSON"
   ELSE IF p.lone \/ ~Same(p.v, r.v) THEN "serialiser output denotes a different value"
+  ELSE IF ~r.re /\ HasDupKeys(p.v) THEN "DRIFT: a value with repeated names does not survive serialise + parse (the parser keeps one pair per name)"
   ELSE IF ~r.re THEN "parse(serialised) differs from the value"
   ELSE ""
 \* extension (Json8259 Part 5): indexing on a parsed document
@@ -131,7 +162,8 @@ WhyIdx(r) ==
       ELSE LET m == AssignKey(v, r.key, VBool(TRUE)) IN
            IF m.panic = r.panic /\ Same(m.after, r.after) THEN "" ELSE "value[key] = true"
 WhyDoc(r) == IF Len(r.in) >= 1 /\ At(r.in, 1) = 65279 THEN WhyBom(r) ELSE WhyDoc1(r)
-Why(r) == IF r.k = "doc" THEN WhyDoc(r) ELSE IF r.k = "ser" THEN WhySer(r) ELSE WhyIdx(r)
+Why(r) == IF r.k = "doc" THEN WhyDoc(r) ELSE IF r.k = "ser" THEN WhySer(r)
+          ELSE LET w == WhyIdx(r) IN IF w = "" THEN "" ELSE "DRIFT: indexing.rs (beyond the property): " \o w
 
 \* Attribution of a mismatch: is the doc record exactly what Part 2 of Json8259 (the model of parser.rs)
 \* predicts under the deviations of this configuration's Dev?  (Trace_Json8259_dev_*.cfg)
@@ -144,16 +176,21 @@ ModelExplains(r) ==
       /\ \A k \in 1..Len(r.pm) : Impl(r.in, r.pm[k].d).ok = r.pm[k].ok
       /\ anyok => Same(some.v, r.v)
 
+IsDrift(w) == Len(w) >= 6 /\ SubSeq(w, 1, 6) = "DRIFT:"
+NDrift(b) == Len(SelectSeq(b, LAMBDA x : IsDrift(x.why)))
 VARIABLES l, bad
 TInit == toks = <<>> /\ txt = <<>> /\ l = 1 /\ bad = <<>>
 TNext == /\ l <= Len(Rec)
          /\ l' = l + 1
          /\ LET w == IF Dev = {} THEN Why(Rec[l])
                      ELSE IF ModelExplains(Rec[l]) THEN "" ELSE "not what the model of parser.rs predicts under Dev" IN
-            bad' = IF w = "" \/ Len(bad) >= 50 THEN bad ELSE Append(bad, [i |-> l, why |-> w])
+            bad' = IF w = "" THEN bad
+                   ELSE IF IsDrift(w) THEN (IF NDrift(bad) >= 20 THEN bad ELSE Append(bad, [i |-> l, why |-> w]))
+                   ELSE IF Len(bad) - NDrift(bad) >= 50 THEN bad ELSE Append(bad, [i |-> l, why |-> w])
          /\ UNCHANGED <<toks, txt>>
 TSpec == TInit /\ [][TNext]_<<l, bad, toks, txt>>
 
-\* checked at the last state: every record consumed, none inexplicable (the first 50 are printed for the driver)
+\* checked at the last state: every record consumed, none inexplicable (the first 50 violations and 20 drifts are
+\* printed for the driver; reasons starting with "DRIFT:" concern behaviour the property does not state)
 AllExplained == (l = Len(Rec) + 1) => (bad = <<>> \/ (PrintT(ToJson([rejected |-> bad])) /\ FALSE))
 =============================================================================
